@@ -265,6 +265,23 @@ def check(run):
     cases = corpus() + gen_cases(run, rules, everything=proof_tie is not None)
     ins, outs, terms, res = run_cases(run, binary, cases, PROP)
     reported = report(run, cases, ins, outs, res, proof_tie)
+    # the same names on the development profile (debug assertions and overflow checks on, as `cargo build` / `cargo test`
+    # compile the crate): "no input string makes a lookup crash" must hold there too, with the same answers
+    dbg = common.harness_build("psl", profile="debug")
+    outs_dbg = common.harness_run(dbg, ins, timeout=600)
+    n_dbg = 0
+    for (shape, d), o, od in zip(cases, outs, outs_dbg):
+        bad = None
+        if od.get("crash") or od.get("panic") or any(isinstance(v, dict) and v.get("panic") for v in od.values()):
+            bad = "a lookup panics or kills the process on the development (debug-assertion) build"
+        elif od != o:
+            bad = "the development build answers differently from the release build"
+        if bad:
+            n_dbg += 1
+            if n_dbg <= 2:
+                run.violation({"kind": bad, "shape": shape, "case": {"op": "psl", "d": d}, "observed": od, "release_build": o})
+    run.cov["debug_profile_cases"] = len(outs_dbg); run.cov["debug_profile_failures"] = n_dbg
+    reported = reported or n_dbg > 0
     if proof_tie is not None and not reported:
         run.violation({"broken": proof_tie.what, "detail": proof_tie.detail,
                        "note": "a C10 theorem / the table translator no longer checks; the crate was compared with the spec on "
